@@ -40,6 +40,7 @@ type Engine struct {
 	assumeSeen map[string]bool
 	FunctionsRun []string
 	TrustedFuncs []string
+	Called map[string]bool // contracts relied upon ("pkg.Recv.Func"): callees of verified bodies, implementations behind interface contracts
 	ImmutablePrefixes []string // heap-array name prefixes ("fld$pkg.Type.") of immutable struct types
 }
 
@@ -68,7 +69,7 @@ func Load(repo string) (*Engine, error) {
 		return nil, err
 	}
 	e := &Engine{Repo: repo, Fset: fset, Pkgs: map[string]*PkgInfo{}, ByPath: map[string]*PkgInfo{},
-		TypeTags: map[string]int{}, LemmaUse: map[string]int{}}
+		TypeTags: map[string]int{}, LemmaUse: map[string]int{}, Called: map[string]bool{}}
 	for _, p := range pkgs {
 		if len(p.Errors) > 0 {
 			return nil, fmt.Errorf("package %s: %v", p.PkgPath, p.Errors[0])
@@ -967,7 +968,13 @@ func (c *Ctx) assumeWFTop(v *Val, ints string, top Term) {
 				add(intRangeOf(v.Typ).InRange(v.T))
 			}
 		case TRef, TCell:
-			add(And(Le(IntLit(0), v.T), Lt(v.T, top)))
+			if _, isIface := v.Typ.Underlying().(*types.Interface); isIface {
+				// interface values may hold package-level objects (errors.New variables, io.EOF), which have
+				// negative static identities
+				add(Lt(v.T, top))
+			} else {
+				add(And(Le(IntLit(0), v.T), Lt(v.T, top)))
+			}
 			// typing invariant: a non-nil *T, T a struct no other struct embeds, is a whole object of dynamic type *T
 			if pt, ok := v.Typ.(*types.Pointer); ok {
 				if nt, ok := pt.Elem().(*types.Named); ok {
@@ -1235,6 +1242,11 @@ func (e *Engine) Refinements(pi *PkgInfo, key string, ict *Contract, only string
 			continue
 		}
 		mct := e.contractOf(mfn)
+		if mct != nil {
+			if mpi := e.ByPath[mfn.Pkg().Path()]; mpi != nil {
+				e.Called[mpi.Name+"."+mct.Name] = true
+			}
+		}
 		name := fmt.Sprintf("%s.%s/refines(%s)", ipi.Name, n.Obj().Name()+"."+key[i+1:], ict.Name)
 		if only != "" && !strings.Contains(name, only) {
 			continue
